@@ -10,9 +10,9 @@ for n in "$@"; do
   if ! git apply --check "$p" 2>/dev/null; then
      if git apply --3way "$p" 2>/dev/null; then echo "3way $n"; else echo "CONFLICT $n"; git checkout -q -- . ; exit 1; fi
   else git apply "$p"; fi
-  if python3 /verif/tools/baseline_check.py /tmp/wt_lead | tee /tmp/t1/bl.out | grep -q "missing 0"; then
+  if python3 /verif/tools/baseline_check.py /tmp/wt_lead | tee /root/scratch/bl.out | grep -q "missing 0"; then
      git add -A; git commit -qm "$(head -1 $t)"; echo "applied $n -> $(git log --format=%h -1)"
      mkdir -p /verif/proposed_fixes/applied; mv "$p" "$t" /verif/proposed_fixes/applied/
-  else echo "BASELINE-FAIL $n: $(cat /tmp/t1/bl.out)"; git checkout -q -- .; git clean -fdq; exit 1; fi
+  else echo "BASELINE-FAIL $n: $(cat /root/scratch/bl.out)"; git checkout -q -- .; git clean -fdq; exit 1; fi
 done
 cd /repo && git merge -q --ff-only lead-fixes && echo "merged: $(git log --format=%h -1)"
